@@ -600,6 +600,7 @@ type vxC04SessCase struct {
 	Consumer int               `json:"consumer"`
 	Batch    bool              `json:"batch,omitempty"` // the statement travels as a one-statement BATCH (a conditional batch is answered with rows)
 	Stale    bool              `json:"stale,omitempty"` // the statement was prepared before the table got its last column: PREPARED describes one column less, the answer to EXECUTE carries the full metadata although the driver asked to skip it
+	StaleOld bool              `json:"stale_old,omitempty"` // with Stale: the node behaves like Cassandra up to 4.x (CASSANDRA-10786) - it has prepared the statement again since the table changed, and answers an EXECUTE that asks to skip the metadata without it, with the new column count
 	Again    int               `json:"again,omitempty"` // afterwards the same Query object is executed again through 1 Query.Scan, 2 Query.MapScan (first row or ErrNotFound)
 }
 
@@ -621,7 +622,7 @@ func TestVxC04Session(t *testing.T) {
 			}
 			return &vxC04SessCase{Resp: r, Prepared: rapid.Bool().Draw(t, "prepared"), NoSkip: rapid.IntRange(0, 3).Draw(t, "noskip") == 0,
 				Codec: rapid.SampledFrom([]string{"", "", "snappy", "lz4"}).Draw(t, "codec"), Consumer: rapid.IntRange(0, 4).Draw(t, "consumer"),
-				Batch: rapid.IntRange(0, 4).Draw(t, "batch") == 0, Again: rapid.SampledFrom([]int{0, 0, 1, 2}).Draw(t, "again"), Stale: rapid.IntRange(0, 5).Draw(t, "stale") == 0}
+				Batch: rapid.IntRange(0, 4).Draw(t, "batch") == 0, Again: rapid.SampledFrom([]int{0, 0, 1, 2}).Draw(t, "again"), Stale: rapid.IntRange(0, 5).Draw(t, "stale") == 0, StaleOld: rapid.Bool().Draw(t, "staleold")}
 		},
 		New: func() interface{} { return &vxC04SessCase{} },
 		Run: func(ci interface{}, k *vstats.Case) error {
@@ -646,20 +647,29 @@ func TestVxC04Session(t *testing.T) {
 			node := cl.Nodes()[0]
 			node.CompressResponses = true
 			skipped, stale := false, false
+			prepares := 0
 			node.Handler = func(rc *vnode.ReqCtx) {
 				switch rc.Req.Kind {
 				case "PREPARE":
+					prepares++
 					rm := &cqlspec.Metadata{Columns: []cqlspec.Column{}}
 					if r.Kind == "ROWS" {
 						rm = &cqlspec.Metadata{Columns: r.Meta.Columns, GlobalSpec: r.Meta.GlobalSpec, Keyspace: r.Meta.Keyspace, Table: r.Meta.Table}
-						if c.Stale && len(r.Meta.Columns) > 0 {
+						if c.Stale && len(r.Meta.Columns) > 0 && !(c.StaleOld && prepares > 1) {
 							rm.Columns = r.Meta.Columns[:len(r.Meta.Columns)-1]
 						}
 					}
 					rc.Reply(&cqlspec.Response{Kind: "PREPARED", PreparedIDHex: "0102", Meta: &cqlspec.Metadata{Columns: []cqlspec.Column{}}, ResultMeta: rm})
 				case "EXECUTE", "QUERY", "BATCH":
 					out := *r
-					if r.Kind == "ROWS" && rc.Req.Kind == "EXECUTE" && rc.Req.Params.SkipMeta && c.Stale && len(r.Meta.Columns) > 0 {
+					if r.Kind == "ROWS" && rc.Req.Kind == "EXECUTE" && rc.Req.Params.SkipMeta && c.Stale && c.StaleOld && len(r.Meta.Columns) > 0 {
+						// the statement was prepared again (by somebody else) after the table changed; this client's
+						// description is one column short, and nothing in the answer says so but the column count
+						m := *r.Meta
+						m.NoMetadata = true
+						out.Meta = &m
+						stale = true
+					} else if r.Kind == "ROWS" && rc.Req.Kind == "EXECUTE" && rc.Req.Params.SkipMeta && c.Stale && len(r.Meta.Columns) > 0 {
 						stale = true // the node knows the table has changed: it sends the metadata of these rows
 					} else if r.Kind == "ROWS" && rc.Req.Kind == "EXECUTE" && rc.Req.Params.SkipMeta {
 						m := *r.Meta
